@@ -31,17 +31,19 @@ def G(ne, rse):
 F = ("F", 0, False)
 
 LEVELS = {
-    # alphabets per depth: generate_mesh(ne, rse) / Frame
+    # alphabets per depth: generate_mesh(ne, rse) / Frame.  Every sequence over these alphabets is executed.
     "quick_big": [[G(2, True), G(3, False), G(6, True), G(12, False), F], [G(2, True), G(4, False), F],
                   [G(2, True), G(3, False), F]],
     "quick_small": [[G(ne, rse) for ne in (2, 3, 5, 8, 12) for rse in (True, False)] + [F],
                     [G(2, True), G(4, False), F], [G(2, True), G(3, False), F]],
-    "thorough_big": [[G(ne, rse) for ne in range(2, 13) for rse in (True, False)] + [F],
-                     [G(2, True), G(2, False), G(3, True), G(5, False), G(8, True), G(12, False), F],
-                     [G(2, True), G(3, False), F], [G(2, False), G(3, True), F]],
+    "thorough_small": [[G(ne, rse) for ne in range(2, 13) for rse in (True, False)] + [F],
+                       [G(2, True), G(5, False), F], [G(3, True), F], [G(2, False), F]],
+    "thorough_mid": [[G(ne, rse) for ne in (2, 3, 4, 6, 9, 12) for rse in (True, False)] + [F],
+                     [G(2, True), G(5, False), F], [G(3, True), F], [G(2, False), F]],
     "thorough_huge": [[G(ne, rse) for ne, rse in ((2, True), (3, False), (4, True), (6, True), (6, False), (9, False),
                                                   (12, True))] + [F],
-                      [G(2, True), G(3, False), G(5, True), F], [G(2, True), G(3, False), F], [G(2, False), F]],
+                      [G(3, True), F], [G(2, False), F], [F]],
+    "thorough_image": [[G(2, True), G(4, False), G(6, True), G(12, False), F], [G(3, True), F], [G(2, False), F], [F]],
 }
 
 
@@ -314,7 +316,14 @@ IMAGES = ["tests/data/test_nonzero.tif", "tests/data/experimental/exp_1.tif"] + 
 
 
 def run(ctx):
-    payloads, case, results = {}, 0, []
+    payloads, case, results, verdicts = {}, 0, [], {}
+
+    def flush(final=False):
+        """thorough tier: validate group by group so that the projected meshes do not pile up in memory"""
+        nonlocal results
+        if results and (final or not ctx.quick):
+            verdicts.update(ctx.validate("Trace_Edits", results, heap="3g"))
+            results = []
 
     def add(kind, fn, jobargs, payload, chunksize=1):
         nonlocal case
@@ -328,25 +337,30 @@ def run(ctx):
     if ctx.quick:
         dumps = ["tests/data/initial_furrow.dmp", "examples/data/in_silico/step_12.dmp", "tests/data/12_12/step_22.dmp"]
     for p in dumps:
-        lv = ctx.pick("quick_big", "thorough_big" if "furrow" in p else "thorough_huge")
+        lv = ctx.pick("quick_big", "thorough_mid" if "furrow" in p else "thorough_huge")
         jobs.append(add("dump", _dump_job, (p, lv), {"path": p, "levels": lv}))
     for p in (IMAGES[:1] if ctx.quick else IMAGES):
         for red in (False, True):
-            lv = ctx.pick("quick_big", "thorough_huge")
+            lv = ctx.pick("quick_big", "thorough_image")
             jobs.append(add("image", _image_job, (p, red, lv), {"path": p, "reduce": red, "levels": lv}))
-    for i in range(ctx.pick(10, 150)):
+    if not ctx.quick:
+        results += run_jobs(jobs)
+        jobs = []
+        flush()
+    for i in range(ctx.pick(10, 50)):
         s = ctx.seed * 7919 + i
-        lv = ctx.pick("quick_small", "thorough_big")
+        lv = ctx.pick("quick_small", "thorough_small")
         jobs.append(add("wkt", _wkt_job, (s, lv), {"seed": s, "levels": lv}))
-    for i in range(ctx.pick(10, 150)):
+    for i in range(ctx.pick(10, 50)):
         s = ctx.seed * 104729 + i
-        lv = ctx.pick("quick_small", "thorough_big")
+        lv = ctx.pick("quick_small", "thorough_small")
         jobs.append(add("tessellation", _tess_job, (s, lv), {"seed": s, "levels": lv}))
-    for i in range(ctx.pick(12, 200)):
+    for i in range(ctx.pick(12, 60)):
         s = ctx.seed * 15485863 + i
-        lv = ctx.pick("quick_small", "thorough_big")
+        lv = ctx.pick("quick_small", "thorough_small")
         jobs.append(add("contours", _contour_job, (s, lv), {"seed": s, "levels": lv}))
     results += run_jobs(jobs)
+    flush()
     # sub-tissues enumerated by TLC
     bases = ctx.pick(["hexflower", "squares33"], ["hexflower", "brick33", "squares33", "hex33"])
     cfg = ctx.pick("MC_Interfaces.cfg", "MC_Interfaces_thorough.cfg")
@@ -358,16 +372,24 @@ def run(ctx):
             sjobs.append(add("sub", _sub_job, (b, inst, ctx.seed),
                              {"base": b, "sub": inst["sub"], "k": inst["k"], "cells": inst["cells"]}))
     n_sub = len(sjobs)
-    results += run_jobs(sjobs, chunksize=16)
+    for i0 in range(0, len(sjobs), 3000):
+        results += run_jobs(sjobs[i0:i0 + 3000], chunksize=16)
+        flush()
     # the edit model: all bounded sequences of public operations on small seeds, replayed
     from harness.props import c09_edits
-    results += c09_edits.run(ctx, payloads, lambda payload: add_payload(ctx, payloads, payload))
-    verdicts = ctx.validate("Trace_Edits", results, heap="3g")
+    def add_edit(payload):
+        nonlocal case
+        case += 1
+        payloads[case] = dict(payload, case=case)
+        ctx.add_case(payloads[case], sample=False)
+        return case
+    results += c09_edits.run(ctx, payloads, add_edit)
+    flush(final=True)
     c09_edits.compare(ctx, verdicts, payloads)
     ctx.judge(verdicts, payloads)
     ctx.rule = ("Every parser on shipped inputs (all Surface Evolver dumps, skeleton images with and without reduce_amount) and "
                 "generated inputs (WKT round trips of generated tissues, Voronoi tessellations of random and jittered centre "
-                "sets), each followed by the whole tree of generate_mesh(ne, replace_short_edges) / Frame sequences over the "
+                "sets, Skeleton.create_lattice on generated contour lists with artefact triangles), each followed by the whole tree of generate_mesh(ne, replace_short_edges) / Frame sequences over the "
                 "per-level alphabets in coverage.levels; every MC_Interfaces sub-tissue through generate_mesh and Frame; "
                 "every bounded sequence of public edit operations enumerated by MC_MeshEdits replayed on the real "
                 "functions. Consistent is judged by TLC after every step.")
@@ -383,7 +405,7 @@ def run(ctx):
 
 
 def add_payload(ctx, payloads, payload):
-    cid = max(payloads) + 1 if payloads else 1
+    cid = len(payloads) + 1
     payloads[cid] = dict(payload, case=cid)
     ctx.add_case(payloads[cid], sample=False)
     return cid
